@@ -118,8 +118,11 @@ def compare(root, pps, excl, cfg, how, out, armed, spec):
         out.either += 1
         out.stats['either:' + zone] += 1
         return None
-    texts = [A.render_path(pp) for pp in pps]
-    etexts = [A.render_path(e) for e in excl] if excl else None
+    # cfg 'escsep': every separator between segments is written `\\/` (same meaning: the crawler splits there and the matcher sees a
+    # separator, so e.g. MATCHBASE has nothing to prepend)
+    sep = '\\/' if cfg.get('escsep') else '/'
+    texts = [A.render_path(pp, True, sep=sep) for pp in pps]
+    etexts = [A.render_path(e, True, sep=sep) for e in excl] if excl else None
     fl = FC.cfg_flags(cfg)
     model = T.Model(root)
     kw = {}
@@ -235,6 +238,9 @@ def run_diff(desc):
         cfg = dict(cfg)
         if excl and inline:
             cfg['negate_inline'] = True
+        if data.draw(st.integers(0, 4)) == 0:
+            cfg['escsep'] = True
+            out.stats['escaped_separators'] += 1
         follow = FC.follows_links(cfg)
         with FC.built_tree(spec, follow_safe=follow) as (root, removed):
             out.stats['cases'] += 1
@@ -320,8 +326,10 @@ def run_literal(desc):
         entries = [p for p, _d, _l in model.all_entries(follow=False, max_depth=6)]
         n = 0
         for segs in FC.literal_variants(entries):
-            for cfg in ({}, {'icase': True}, {'icase': True, 'globstar': True}, {'globstar': True, 'dot': True}):
+            for cfg in ({}, {'icase': True}, {'icase': True, 'globstar': True}, {'globstar': True, 'dot': True}, {'matchbase': True, 'escsep': True}):
                 if any(isinstance(x, str) for x in segs) and not cfg.get('globstar'):
+                    continue
+                if cfg.get('escsep') and len(segs) < 2:
                     continue
                 for trail in (False, True) if len(segs) <= 2 else (False,):
                     pp = A.PathPat(False, segs, trail, 1)
